@@ -646,6 +646,10 @@ class BaseRequest(MutableMapping[str | RequestKey[Any], Any], HeadersMixin):
 
             if start is None and end is not None:
                 # end with no start is to return tail of content
+                if end == 0:
+                    # a zero suffix-length is not satisfiable (RFC 9110 14.1.2),
+                    # and -0 would otherwise select the whole content
+                    raise ValueError("suffix length cannot be zero")
                 start = -end
                 end = None
 
